@@ -63,15 +63,15 @@ func lockOp(c *ssa.CallCommon) (string, string, bool) {
 	}
 	switch fullName(f) {
 	case "(*sync.Mutex).Lock", "(*sync.RWMutex).Lock":
-		return "Lock", exprKey(c.Args[0]), true
+		return "Lock", sk(c.Args[0]), true
 	case "(*sync.RWMutex).RLock":
-		return "RLock", exprKey(c.Args[0]), true
+		return "RLock", sk(c.Args[0]), true
 	case "(*sync.Mutex).Unlock", "(*sync.RWMutex).Unlock":
-		return "Unlock", exprKey(c.Args[0]), true
+		return "Unlock", sk(c.Args[0]), true
 	case "(*sync.RWMutex).RUnlock":
-		return "RUnlock", exprKey(c.Args[0]), true
+		return "RUnlock", sk(c.Args[0]), true
 	case "(*sync.Mutex).TryLock", "(*sync.RWMutex).TryLock", "(*sync.RWMutex).TryRLock":
-		return "Try", exprKey(c.Args[0]), true
+		return "Try", sk(c.Args[0]), true
 	}
 	return "", "", false
 }
